@@ -8,9 +8,15 @@ ops
   generating  alts, V, av, nests → {"G":…, "Gy":…, "alone":[…], "logG":[…|null]}
   ordered   cdf ∈ logit|probit ; x, tau, labels, diffs=[[label,bits]…] → {"dict":[[label,bits]…]} or error
   validate  kind ∈ nested|cnl ; alts, nests → {"ok":bool, "alone":[…]} or error
+  call      kind ∈ logit|mev|meves ; util=[[label,bits]…] (insertion order of the utility dict),
+            av = null | [[label,bits]…] (insertion order of the availability dict, any keys),
+            [logG], [corr] dictionaries likewise → {"p":[…], "logp":[…|null]} per key of util, or
+            {"error":"KeyError"}   (Model/ModelsBuild.lean: loglogitEval / logmevEval / logmevESEval)
+  ordered   takes "tau_beta": bool (is the threshold argument a Beta?) → orderedCall
 -/
 import Driver.Common
 import Model.Models
+import Model.ModelsBuild
 open Lean Drv Models
 
 def nan : Float := 0.0 / 0.0
@@ -63,6 +69,18 @@ def parseArg {ν} (parse : Json → Except String (Spec ν)) (j : Json) : Except
   match nj.getObjVal? "choice_set" with
   | .ok Json.null => pure (.legacy specs)
   | .ok v => do pure (.object (← intList v) specs)
+  | .error _ => throw "bad-op"
+
+def parseDict (j : Json) : Except String (List (Int × Float)) := do
+  (← asArr j).toList.mapM fun e => do
+    match (← asArr e).toList with
+    | [k, v] => pure ((← asInt k), (← asFloat v))
+    | _ => throw "bad-op"
+
+def optDict (j : Json) (k : String) : Except String (Option (List (Int × Float))) :=
+  match j.getObjVal? k with
+  | .ok Json.null => pure none
+  | .ok v => do pure (some (← parseDict v))
   | .error _ => throw "bad-op"
 
 structure Common where
@@ -129,6 +147,24 @@ def handle (j : Json) : Except String Json := do
       | .error e => pure (errJson e)
       | .ok (nests, _) => pure (mevOut c (cnlMuLogG nests mu c.V c.av))
     | _ => throw "bad-op"
+  | "call" =>
+    let kind ← getStr j "kind"
+    let util ← parseDict (← j.getObjVal? "util")
+    let av ← optDict j "av"
+    let alts := util.map (·.1)
+    let r : Except String (List (Option Float)) ← match kind with
+      | "logit" => pure (alts.mapM fun c => loglogitEval util av c)
+      | "mev" => do
+        let lg ← parseDict (← j.getObjVal? "logG")
+        pure (alts.mapM fun c => logmevEval util lg av c)
+      | "meves" => do
+        let lg ← parseDict (← j.getObjVal? "logG")
+        let w ← parseDict (← j.getObjVal? "corr")
+        pure (alts.mapM fun c => logmevESEval util lg w av c)
+      | _ => throw "bad-op"
+    match r with
+    | .error e => pure (errJson e)
+    | .ok ls => pure (Json.mkObj [("p", jFloats (ls.map expL)), ("logp", jArr (ls.map jOptF))])
   | "generating" =>
     let c ← parseCommon j
     let arg ← parseArg parseNest j
@@ -158,7 +194,10 @@ def handle (j : Json) : Except String Json := do
       | "logit" => pure (logisticCdf (α := Float))
       | "probit" => pure (Num.normalCdf (α := Float))
       | _ => throw "bad-op"
-    match orderedLikelihood F x tau diffOf labels with
+    let tauBeta ← match j.getObjVal? "tau_beta" with
+      | .ok (Json.bool b) => pure b
+      | _ => throw "bad-op"
+    match orderedCall tauBeta F x tau diffOf labels with
     | .error e => pure (errJson e)
     | .ok d => pure (Json.mkObj [("dict", jArr (d.map fun p => jArr [jInt p.1, fbits p.2]))])
   | "validate" =>
